@@ -1,7 +1,7 @@
 /* Concurrency harness for C13.
  *   conc sched  <kind> <program-file> <schedules-file> <out.ndjson>    deterministic replay of TLC schedules
  *   conc stress <kind> <threads> <ops/thread/round> <rounds> <seed> <out.ndjson>   free-running rounds
- * kind: vector | list | hashtbl | treetbl | listtbl   (containers created with their thread-safe option)
+ * kind: vector | list | hashtbl | treetbl | listtbl | listtblu (unique option)   (containers created with their thread-safe option)
  * program-file: one line per thread: op a b ; op a b ; ...
  * schedules-file: one line per schedule: thread ids (1-based) separated by blanks; each id lets that thread run up
  *   to its next scheduling point (call boundary, before an outermost lock acquisition, after an outermost release).
@@ -20,7 +20,7 @@
 #define MAXOPS 64
 typedef struct { char op[12]; int a, b; long inv, res; int out; int nouts; int outs[64][2]; } oprec;
 static oprec prog[MAXT][MAXOPS]; static int nops[MAXT]; static int NT;
-enum { K_VECTOR, K_LIST, K_HASHTBL, K_TREETBL, K_LISTTBL };
+enum { K_VECTOR, K_LIST, K_HASHTBL, K_TREETBL, K_LISTTBL, K_LISTTBLU };
 static int K; static const char *kindname;
 static qvector_t *V; static qlist_t *L; static qhashtbl_t *HT; static qtreetbl_t *TT; static qlisttbl_t *LT;
 
@@ -30,7 +30,7 @@ static void mk(void) {
     else if (K == K_LIST) L = qlist(QLIST_THREADSAFE);
     else if (K == K_HASHTBL) HT = qhashtbl(3, QHASHTBL_THREADSAFE);
     else if (K == K_TREETBL) TT = qtreetbl(QTREETBL_THREADSAFE);
-    else LT = qlisttbl(QLISTTBL_THREADSAFE);
+    else LT = qlisttbl(K == K_LISTTBLU ? (QLISTTBL_THREADSAFE | QLISTTBL_UNIQUE) : QLISTTBL_THREADSAFE);
 }
 static void rel(void) {
     if (V) V->free(V); if (L) L->free(L); if (HT) HT->free(HT); if (TT) TT->free(TT); if (LT) LT->free(LT);
@@ -354,7 +354,7 @@ int main(int argc, char **argv) {
     if (!strcmp(argv[1], "mutex")) { vh_install_handlers(); exit(run_mutex(atoi(argv[2]), argv[3])); }
     kindname = argv[2];
     K = !strcmp(kindname, "vector") ? K_VECTOR : !strcmp(kindname, "list") ? K_LIST : !strcmp(kindname, "hashtbl") ? K_HASHTBL
-      : !strcmp(kindname, "treetbl") ? K_TREETBL : K_LISTTBL;
+      : !strcmp(kindname, "treetbl") ? K_TREETBL : !strcmp(kindname, "listtblu") ? K_LISTTBLU : K_LISTTBL;
     vh_install_handlers();
     if (!strcmp(argv[1], "sched") && argc >= 6) exit(run_sched(argv[3], argv[4], argv[5]));
     if (!strcmp(argv[1], "stress") && argc >= 8) exit(run_stress(atoi(argv[3]), atoi(argv[4]), atoi(argv[5]), (unsigned) atoi(argv[6]), argv[7]));
